@@ -598,7 +598,9 @@ func (r *run) subjectRef(q ask) (ref.Ref, string, string, []scheme.ReferrerOpts,
 	tag := ""
 	if si == 0 {
 		tag = baseTag
-	} else if a := r.u.arts[0]; si == 2 && a.tag != "" && r.tagOwner[a.tag] == a.digest && !r.c.Sys.External {
+	} else if a := r.u.arts[0]; si == 2 && a.tag != "" && !r.c.Sys.External && r.e.rawTag(a.tag) == a.digest {
+		// which manifest a tag names right now is read from raw storage: after a batch that pushed several artifacts
+		// to the shared tag the last writer is a matter of schedule (and not what this property is about)
 		tag = a.tag
 	}
 	if si == 0 && q.platform != 0 {
